@@ -6,7 +6,7 @@ from pyvc.engine import Engine
 
 META = _pipeline.meta('C18')
 
-DEDUCTIVE = ['vsg.vhdlFile.extract.get_tokens_bounded_by.get_tokens_bounded_by', 'vsg.rule_list.rule_list.fix', 'vsg.vhdlFile.vhdlFile.vhdlFile.update_token_map', 'vsg.vhdlFile.vhdlFile.vhdlFile.fix_blank_lines', 'vsg.vhdlFile.vhdlFile.vhdlFile.fix_trailing_whitespace', 'vsg.vhdlFile.extract.utils.get_indexes_of_token_list', 'vsg.vhdlFile.extract.get_tokens_matching.get_tokens_matching', 'vsg.vhdlFile.extract.get_tokens_at_beginning_of_line_matching.get_tokens_at_beginning_of_line_matching', 'vsg.vhdlFile.extract.get_sequence_of_tokens_matching.get_token_indexes', 'vsg.vhdlFile.extract.get_sequence_of_tokens_matching.get_sequence_of_tokens_matching', 'vsg.vhdlFile.vhdlFile.vhdlFile.update', 'vsg.vhdlFile.vhdlFile.remove_beginning_of_file_tokens', 'vsg.vhdlFile.extract.tokens.calculate_end_index', 'vsg.vhdlFile.extract.tokens.New.extract_tokens', 'vsg.rules.token_case.token_case._fix_violation']
+DEDUCTIVE = ['vsg.vhdlFile.extract.get_tokens_bounded_by.get_tokens_bounded_by', 'vsg.vhdlFile.extract.get_token_and_n_tokens_before_it.get_token_and_n_tokens_before_it', 'vsg.rule.Rule._filter_out_fix_only_violations', 'vsg.rule.Rule.fix', 'vsg.rule_list.rule_list.fix', 'vsg.vhdlFile.vhdlFile.vhdlFile.update_token_map', 'vsg.vhdlFile.vhdlFile.vhdlFile.fix_blank_lines', 'vsg.vhdlFile.vhdlFile.vhdlFile.fix_trailing_whitespace', 'vsg.vhdlFile.extract.utils.get_indexes_of_token_list', 'vsg.vhdlFile.extract.get_tokens_matching.get_tokens_matching', 'vsg.vhdlFile.extract.get_tokens_at_beginning_of_line_matching.get_tokens_at_beginning_of_line_matching', 'vsg.vhdlFile.extract.get_sequence_of_tokens_matching.get_token_indexes', 'vsg.vhdlFile.extract.get_sequence_of_tokens_matching.get_sequence_of_tokens_matching', 'vsg.vhdlFile.vhdlFile.vhdlFile.update', 'vsg.vhdlFile.vhdlFile.remove_beginning_of_file_tokens', 'vsg.vhdlFile.extract.tokens.calculate_end_index', 'vsg.vhdlFile.extract.tokens.New.extract_tokens', 'vsg.rules.token_case.token_case._fix_violation', 'vsg.vhdlFile.extract.utils.get_indexes_of_token_pairs', 'vsg.vhdlFile.extract.utils.filter_indexes_in_unless_regions', 'vsg.vhdlFile.extract.utils.is_index_between_indexes', 'vsg.vhdlFile.extract.get_tokens_at_beginning_of_line_matching_between_tokens_unless_between_tokens.get_tokens_at_beginning_of_line_matching_between_tokens_unless_between_tokens']
 
 
 def run():
@@ -20,6 +20,15 @@ def run():
     from bounded import corpus, update_contract
     from pyvc.checklib import Finding
 
+    # update() applies the violations back to front: that is only safe if Rule.fix hands them over in analysis order, each once --
+    # also under --fix_only (the filter's contract; stand-in: the same contract on the real functions with seeded selections)
+    from bounded import fixonly
+
+    fres = corpus.pmap(fixonly.one, [c.seed * 100000 + i for i in range(200 if c.tier == "quick" else 3000)], chunksize=25)
+    c.bounded["fix_only_order"] = {"evaluations": 2 * len(fres), "distinct_nontrivial": len(fres), "rule": "seeded real Rule objects x seeded --fix_only dictionaries (unsorted and repeated line lists): update() receives the violations in analysis order, each at most once"}
+    for seed, out in [x for x in fres if x[1]][:1]:
+        which, why, inp = out[0]
+        c.findings.append(Finding("bounded", "fix_only:" + which, why, {"scenario_seed": seed, "failing_input": inp, "observed": why}, repr(inp)[:200]))
     n = 600 if c.tier == "quick" else 20000
     res = corpus.pmap(update_contract.one, [c.seed * 1000000 + i for i in range(n)], chunksize=50)
     c.bounded["update_contract"] = {"evaluations": n, "distinct_nontrivial": n, "rule": "seeded token lists (4-40 real token objects), 0-4 ascending disjoint regions, replacements that keep / grow / shrink / retype / reorder the region, half of the cases with length changes that cancel; every seed is a distinct case"}
@@ -30,5 +39,5 @@ def run():
     if c.tier == "thorough":
         from pyvc.checklib import run_selftest
 
-        run_selftest(c, ["mutants_extract.py"], lambda eng: [q for q in eng.contracts if q.startswith("vsg.vhdlFile.extract.get_") or q == "vsg.vhdlFile.extract.utils.get_indexes_of_token_list"])
+        run_selftest(c, ["mutants_extract.py"], lambda eng: [q for q in eng.contracts if q.startswith("vsg.vhdlFile.extract.get_") or q.startswith("vsg.vhdlFile.extract.utils.")])
     return c.finish({"explanation": META["text"]})
